@@ -726,6 +726,14 @@ def _restereo(mol, c, mapping):
     return c
 
 
+def ring_junction_label(mol):
+    """a labelled atom with >= 4 ring bonds (spiro / three-ring fusion atom)"""
+    for n, a in mol._atoms.items():
+        if a._stereo is not None and a.in_ring and sum(1 for m in mol._bonds[n] if mol._atoms[m].in_ring) >= 4:
+            return True
+    return False
+
+
 def normalise(mol):
     """'once aromaticity is normalised': Kekulé form, then the library's aromatisation."""
     m = mol.copy()
@@ -799,6 +807,18 @@ EXPLICIT_H_STEREO = [
     '[3H][C@](F)(Cl)Br', 'OC[C@@]([2H])(O)C=O', 'F[C@]([H])(Cl)Br', '[Na+].[O-]C(=O)[C@]([2H])(C)N', '[2H][C@@](C)(O)CC',
     'C[C@]([3H])(N)CC', '[2H][C@]1(C)CCCO1', 'CC[C@H](N)C', 'N[C@@H](C)C(=O)O', 'F[C@H](Cl)Br', 'C[C@](F)(Cl)Br',
     '[2H]C([2H])(C)O', 'C[C@@]([2H])(O)[C@]([2H])(C)N',
+]
+
+
+# labelled centres with four ring bonds (chiral spiro atoms, atoms shared by three rings): one atom closes a ring and opens
+# another, so the order of ring-closure digits at that atom enters the chirality mark
+RING_JUNCTION_STEREO = [
+    'C1CCO[C@@]2(C1)CCCCO2', 'C1CCO[C@]2(C1)CCCCO2', 'O=C1CC[C@@]2(CCCO2)C1', 'C1CC[C@]2(C1)OCCCO2', 'N1CCC[C@]12CCCO2',
+    'C1CO[C@@]2(C1)CCCN2', 'O=C1OC[C@]12CCCS2', 'C1C[C@@]2(CO2)CCO1', 'C1C[C@]2(CO2)CCN1', 'CC1CC[C@@]2(CC1)CCC(=O)O2',
+    'COC1=CC(=O)C[C@@H](C)[C@]12Oc1c(Cl)c(OC)cc(OC)c1C2=O',
+    'CC(=O)S[C@@H]1CC2=CC(=O)CC[C@]2(C)[C@H]2CC[C@@]3(C)[C@@H](CC[C@@]33CCC(=O)O3)[C@H]12',
+    'CN1CC[C@]23c4c5ccc(O)c4O[C@H]2[C@@H](O)C=C[C@H]3[C@H]1C5', 'C[C@]12CC[C@H]3[C@@H](CCC4=CC(=O)CC[C@]34C)[C@@H]1CC[C@]21CO1',
+    'C1C[C@@]23CCCC[C@H]2CC[C@@H]1O3', 'O1CC[C@]2(C1)C[C@@H]2C', 'C1CC[C@@]2(C1)C(=O)NC2=O',
 ]
 
 
@@ -1051,7 +1071,7 @@ def relational_molecules(ctx):
     rng = ctx.rng
     out = []
     for s in molgen.HANDMADE + SYMMETRIC + STEREO_PAIRS + ISOTOPES + EXPLICIT_H_STEREO + ez_catalogue() + OLIGOMERS \
-            + oligomers(rng, 50 if ctx.quick else 400):
+            + RING_JUNCTION_STEREO + oligomers(rng, 50 if ctx.quick else 400):
         m = molgen.parse(s)
         if m is not None:
             out.append((s, s, m))
@@ -1150,7 +1170,7 @@ def relational(ctx, mols=None, nvar=None):
                 ctx.dist('R:skipped:reread-canonical:census-differs')
         except Exception as e:  # noqa
             ctx.dist('R:skipped:reread-canonical:' + type(e).__name__)
-        for _ in range(1 if not stereo_elements(base) else 3):
+        for _ in range(1 if not stereo_elements(base) else (8 if ring_junction_label(base) else 3)):
             try:
                 t, m2 = reread_own(rng, base)
                 compare(ctx, name, base, s0, h0, 'reread-own-random-spelling', m2, t)
@@ -1237,7 +1257,7 @@ def search(ctx):
     ctx.notes.append(f'search: {len(first)} distinct molecules from disagreeing K cases, '
                      f'{sum(1 for t in first if t[0] > 0)} of them with implementation classes coarser than an independent refinement')
     first = [(w, None, m) for _, _, w, m in first[:150]]
-    cat = OLIGOMERS + oligomers(ctx.rng, 150) + ISOTOPES + EXPLICIT_H_STEREO + ez_catalogue() + STEREO_PAIRS + SYMMETRIC + molgen.HANDMADE
+    cat = OLIGOMERS + RING_JUNCTION_STEREO + oligomers(ctx.rng, 150) + ISOTOPES + EXPLICIT_H_STEREO + ez_catalogue() + STEREO_PAIRS + SYMMETRIC + molgen.HANDMADE
     deco = []
     for t in SYMMETRIC + molgen.HANDMADE:
         m = molgen.parse(t)
